@@ -43,7 +43,8 @@ def model_case(draw):
     spec['trace'] = draw(st.sampled_from([None, None, 1, 2]))
     ops = []
     name_st = st.sampled_from(names[:6] + ['no_such_series'])
-    for _ in range(draw(st.integers(4, 20))):
+    from harness import gen
+    for _ in range(draw(st.integers(4, gen.size(20, 50)))):
         k = draw(st.sampled_from(['get', 'get', 'get', 'get', 'suppress', 'mutate', 'mutate', 'cutoff', 'csv', 'get-step']))
         if k == 'get':
             ops.append(['get', draw(name_st), draw(st.sampled_from([None, None, 0, 1, 2, T, T + 3])), 'main'])
